@@ -92,6 +92,11 @@ class ConfigurationDict(UserDict):
         return super(ConfigurationDict,
                      self).__contains__(self.__class__._k(key))
 
+    def __ior__(self, other):
+        # `UserDict.__ior__` writes to `self.data` directly
+        self.update(other)
+        return self
+
     @classmethod
     def _k(cls, key):
         """Convert a key to lower case"""
